@@ -9,7 +9,8 @@ for f in sorted(glob.glob(os.path.join(ROOT, "seeded", "*", "meta.json"))):
     name = os.path.basename(os.path.dirname(f))
     notes = (m.get("needs_to_manifest") or "").replace("\n", " ")
     short = m.get("summary") or notes[:160]
-    checks = ", ".join(f"{c}: {'caught' if v['caught'] else 'MISSED'}" for c, v in m.get("checks", {}).items())
+    checks = ", ".join(f"{c}: {'caught' if v['caught'] else 'MISSED'}" for c, v in m.get("checks", {}).items()
+                       if "caught" in v)
     hist = m.get("history")
     if hist:
         checks += f" ({hist})"
